@@ -2,12 +2,19 @@
 use crate::core::*;
 use crate::w1ops::W1Scn;
 use crate::w3ops::W3Scn;
+use crate::w4::W4Scn;
+use crate::w4probe::ShapeScn;
 use serde::{Deserialize, Serialize};
 
 #[derive(Clone, Debug, Serialize, Deserialize, PartialEq)]
 pub enum Scenario {
     W1(W1Scn),
     W3(W3Scn),
+    W4(W4Scn),
+    Shape(ShapeScn),
+    Stat(crate::w3stat::StatScn),
+    /// re-run of a whole statistical batch (C15 replay)
+    StatBatch { property: String, verif_seed: u64, runs: u64 },
 }
 
 impl Scenario {
@@ -26,12 +33,24 @@ impl Scenario {
         match self {
             Scenario::W1(s) => &s.cfg.property,
             Scenario::W3(s) => &s.cfg.property,
+            Scenario::W4(s) => &s.cfg.property,
+            Scenario::Shape(s) => &s.property,
+            Scenario::Stat(s) => &s.property,
+            Scenario::StatBatch { property, .. } => property,
         }
     }
     fn execute_inner(&self, run_dir: &str) -> RunOutcome {
         match self {
             Scenario::W1(s) => crate::w1exec::execute(s, run_dir),
             Scenario::W3(s) => crate::w3exec::execute(s),
+            Scenario::Shape(s) => crate::w4probe::execute(s),
+            Scenario::Stat(s) => crate::w3stat::execute(s),
+            Scenario::StatBatch { property, verif_seed, runs } => crate::runner::stat_batch(property, *verif_seed, *runs),
+            Scenario::W4(s) => match s.cfg.property.as_str() {
+                "C16" => crate::w4agents::execute_c16(s),
+                "C17" => crate::w4agents::execute_c17(s),
+                _ => crate::w4::execute_c09(s, run_dir),
+            },
         }
     }
     /// length of the list ddmin works on
@@ -39,6 +58,9 @@ impl Scenario {
         match self {
             Scenario::W1(s) => s.ops.len(),
             Scenario::W3(s) => s.ops.len(),
+            Scenario::W4(s) => s.agents.len() + s.initial.len() + s.inject.len(),
+            Scenario::Shape(_) => 0,
+            Scenario::Stat(_) | Scenario::StatBatch { .. } => 0,
         }
     }
     /// scenario with list elements `keep[i] == false` removed
@@ -46,6 +68,9 @@ impl Scenario {
         match self {
             Scenario::W1(s) => Scenario::W1(crate::shrink::w1_filtered(s, keep)),
             Scenario::W3(s) => Scenario::W3(crate::shrink::w3_filtered(s, keep)),
+            Scenario::W4(s) => Scenario::W4(crate::shrink::w4_filtered(s, keep)),
+            Scenario::Shape(s) => Scenario::Shape(s.clone()),
+            Scenario::Stat(_) | Scenario::StatBatch { .. } => self.clone(),
         }
     }
     /// single-step simplifications (each candidate differs from self in one place)
@@ -53,6 +78,33 @@ impl Scenario {
         match self {
             Scenario::W1(s) => crate::shrink::w1_simplifications(s).into_iter().map(Scenario::W1).collect(),
             Scenario::W3(s) => crate::shrink::w3_simplifications(s).into_iter().map(Scenario::W3).collect(),
+            Scenario::W4(s) => crate::shrink::w4_simplifications(s).into_iter().map(Scenario::W4).collect(),
+            Scenario::Stat(s) => {
+                let mut out = vec![];
+                for k in [1usize, s.steps / 2] {
+                    if k >= 1 && k < s.steps {
+                        let mut n = s.clone();
+                        n.steps = k;
+                        out.push(Scenario::Stat(n));
+                    }
+                }
+                out
+            }
+            Scenario::StatBatch { .. } => vec![],
+            Scenario::Shape(s) => {
+                let mut out = vec![];
+                if s.calls > 1 {
+                    let mut n = s.clone();
+                    n.calls = 1;
+                    out.push(Scenario::Shape(n));
+                }
+                if s.inst != 0 {
+                    let mut n = s.clone();
+                    n.inst = 0;
+                    out.push(Scenario::Shape(n));
+                }
+                out
+            }
         }
     }
     pub fn world(&self) -> &'static str {
@@ -62,6 +114,15 @@ impl Scenario {
                     "W2-market"
                 } else {
                     "W1-book"
+                }
+            }
+            Scenario::Shape(_) => "W4-probe-agent-sets",
+            Scenario::Stat(_) | Scenario::StatBatch { .. } => "W3-observable-batches",
+            Scenario::W4(s) => {
+                if s.cfg.market {
+                    "W4-agents-market-env"
+                } else {
+                    "W4-agents-env"
                 }
             }
             Scenario::W3(s) => {
